@@ -27,10 +27,12 @@ Proof. exact final_list_schedule_independent. Qed.
 Print Assumptions c04_mapping_schedule_independent.
 
 (* mapping, buffer-directory path (the one run_mapping uses): the directory listing is
-   sorted by name, so already the gathered list is independent of the order *)
+   sorted by name, so already the gathered list is independent of the order (every listed file
+   belongs to a worker that has a seed: again the default of `nth _ seeds 0` is excluded) *)
 Theorem c04_mapping_buffer_files_independent :
   forall (A : Type) (work : nat -> Z -> list (record A)) (name : nat -> Z) (chunk_of_name : Z -> nat)
          (cell_order seeds : list Z) (s1 s2 : list nat),
+  (forall i, In i s1 -> (chunk_of_name (name i) < length seeds)%nat) ->
   Permutation s1 s2 ->
   gather_files A work name chunk_of_name seeds s1 = gather_files A work name chunk_of_name seeds s2 /\
   final_files A work name chunk_of_name cell_order seeds s1 = final_files A work name chunk_of_name cell_order seeds s2.
